@@ -14,7 +14,7 @@ import (
 func TestVerif_C11(t *testing.T) {
 	r := verifrt.Start(t, "C11")
 	defer r.Finish()
-	r.Rule("round = (kind in {Spawn xN, SpawnNamedFromFunc xN, Spawn+SpawnNamedFromFunc mixed, SpawnChild xN under one parent, callers with live/cancelled/soon-cancelled contexts, Kill of the name racing the spawns, spawns issued the moment Kill returned, two names interleaved}, 2-8 concurrent callers each with its own actor instance, PreStart dwell, GOMAXPROCS, 0-2 hot noise sites in spawn.go/pid_tree.go/pid.go/death_watch.go) with a fresh name on a per-batch actor system; oracle = per-name gauge of instances between PreStart and PostStop (max must be <= 1), pointer identity of the PIDs returned without error (all callers in rounds without Kill; callers whose call began after Kill returned otherwise) and they must be running, at death-watch quiescence live instances == running registered actor of that name, and NumActors() == running user actors; non-trivial = two calls on one name overlapped in time and (more successful callers than PreStarts, or a Kill overlapped a call, or the round is spawn-after-kill); distinct by knob tuple and seed")
+	r.Rule("round = (kind in {Spawn xN, SpawnNamedFromFunc xN, Spawn+SpawnNamedFromFunc mixed, SpawnChild xN under one parent, callers with live/cancelled/soon-cancelled contexts, Kill of the name racing the spawns, spawns issued the moment Kill returned, two names interleaved, a winner whose PreStart honours the spawn context and whose context is cancelled mid-flight while >=2 callers with healthy contexts wait on its flight (Spawn / SpawnNamedFromFunc / SpawnChild flavours)}, 2-8 concurrent callers each with its own actor instance, PreStart dwell, GOMAXPROCS, 0-2 hot noise sites in spawn.go/pid_tree.go/pid.go/death_watch.go) with a fresh name on a per-batch actor system; oracle = per-name gauge of instances between PreStart and PostStop (max must be <= 1), pointer identity of the PIDs returned without error (all callers in rounds without Kill; callers whose call began after Kill returned otherwise) and they must be running, at death-watch quiescence live instances == running registered actor of that name, and NumActors() == running user actors; non-trivial = two calls on one name overlapped in time and (more successful callers than PreStarts, or a Kill overlapped a call, or the round is spawn-after-kill); distinct by knob tuple and seed")
 	rng := r.Rand(11)
 	n := r.N(160, 5000)
 	env := c11NewEnv(t)
@@ -27,7 +27,15 @@ func TestVerif_C11(t *testing.T) {
 		k := c11GenKnobs(rng, i+r.Batch*3)
 		seed := rng.Int63()
 		obs := env.runRound(t, k, seed)
-		r.Case(k.String()+"/"+verifrt.Hash64s(seed), obs.Overlap && (obs.Coalesced || obs.KillRaced || k.Kind == "spawn-after-kill"))
+		nontrivial := obs.Overlap && (obs.Coalesced || obs.KillRaced || k.Kind == "spawn-after-kill")
+		if c11IsAbort(k.Kind) {
+			// the winner really was aborted by its own context mid-flight and at least two healthy callers got a PID
+			nontrivial = obs.Aborted && obs.OK >= 2
+			if nontrivial {
+				r.Count("rounds_winner_aborted_with_two_or_more_healthy_callers", 1)
+			}
+		}
+		r.Case(k.String()+"/"+verifrt.Hash64s(seed), nontrivial)
 		r.Count("successful_spawn_calls", int64(obs.OK))
 		r.Count("prestarts_observed", obs.PreStarts)
 		r.Count("noise_delays_injected", obs.Delays)
